@@ -161,10 +161,10 @@ CHECKS = {
    technique="TLA+ model of the nondeterministic choice points checked by TLC over all orders + TLC trace validation of repeated real compilations",
    ref="§4 C16"),
  "C17": dict(
-   text="Every covered Duden function (82 call forms over Listen, Texte, Sortierung: value and Referenz variants) is called from generated driver programs with every combination of an argument "
+   text="Every covered Duden function (117 call forms over Listen, Texte, Sortierung, Mathe, Zahlen, Statistik, Zeichen: value and Referenz variants) is called from generated driver programs with every combination of an argument "
         "vocabulary (lists of length 0..4 over Zahl/Text/Buchstabe, texts with multi-byte characters, indices and counts -1..7; seeded sample per function when the product is large), one "
         "process per call; result, arguments afterwards and failure are one event each, validated by TLC against DudenSeq.tla (sequence operations, documented-domain guards).",
-   note="Kommazahl-valued functions (Mathe, Statistik, most of Zahlen) and Zeichen are not covered; 'sorted' is checked as sorted permutation, 'compare' by sign; outside the documented "
+   note="Kommazahl-valued functions (most of Mathe, Statistik, Zahlen) are not covered; calls run inside the module's top level (imported globals alive), one process each; 'sorted' is checked as sorted permutation, 'compare' by sign; outside the documented "
         "domain nothing is compared.",
    technique="TLA+ specification of the functions as sequence operations + TLC trace validation of calls made by compiled driver programs",
    ref="§4 C17"),
